@@ -22,6 +22,7 @@ type sessionFam struct {
 	shutdownSeen    bool
 	snap            map[string]string // alias -> state at end of the scripted part
 	aliveAfterDrain []string
+	outlived        map[string]bool
 }
 
 func init() {
@@ -198,6 +199,27 @@ func (f *sessionFam) quiescent(w *World) {
 			sig = "underflow"
 		}
 		w.violate("C04", "count-equals-table", sig, fmt.Sprintf("at quiescence t=%v ClientsCount()=%d but Clients() has %d keys", simrt.Now(), cnt, len(keys)))
+	}
+	// C03: a session does not outlive its transport: when the connection under a session has ended (peer closed
+	// it, it failed, the server tore it down) the session stops being open there and then - at a quiescent point
+	// no session that is still open or closing sits on a transport that is closed
+	// (not with stalled tasks: a handler that lost time between tearing down the old transport and installing
+	// the new one is in the middle of the switch at this "quiescent" point)
+	for _, a := range sortedKeys(w.Socks) {
+		if f.sc.Policy.StallP > 0 {
+			break
+		}
+		s := w.Socks[a]
+		if st := s.ReadyState(); st != "open" && st != "closing" {
+			continue
+		}
+		if t := s.Transport(); t != nil && t.ReadyState() == "closed" && !f.outlived[a] {
+			if f.outlived == nil {
+				f.outlived = map[string]bool{}
+			}
+			f.outlived[a] = true
+			w.violate("C03", "session-outlives-transport", s.ReadyState()+"/"+t.Name(), fmt.Sprintf("at quiescence t=%v session %s is %s but its %s transport is closed", simrt.Now(), a, s.ReadyState(), t.Name()))
+		}
 	}
 	// C12: the first quiescent point after a shutdown returned: table empty?
 	if !f.shutdownSeen {
@@ -398,6 +420,17 @@ func oracleC03(f *sessionFam, w *World) []Violation {
 		// state closed without any close event
 		if s.rank == 3 && len(s.closes) == 0 && s.conn != nil && len(w.evs(a, "close-before-attach")) == 0 {
 			v("close-event-emitted", "", fmt.Sprintf("%s: session reached state closed but no close event was delivered", a))
+		}
+		// every client has been gone for the whole grace period (heartbeat deadline twice over, close timeout,
+		// upgrade timeout): a cause to stop being open was present for every session, and a session that stops
+		// being open emits its close event - a session that is still waiting (typically stuck in 'closing'
+		// because the cause that should have finished it was dropped) never told the application
+		if f.drained && s.rank < 3 && len(s.closes) == 0 && s.conn != nil && len(w.evs(a, "close-before-attach")) == 0 {
+			st := "open"
+			if s.rank == 2 {
+				st = "closing"
+			}
+			v("close-event-emitted", "never-closed-after-peer-gone/"+st, fmt.Sprintf("%s: every client has been gone for %v but the session is still %s and no close event was delivered", a, f.grace, st))
 		}
 	}
 	// cause attribution: the reason must be one the environment made possible
